@@ -23,3 +23,10 @@ add("C02", "exploration", "runtime monitor: independent canonical-trie hasher + 
 add("C03", "exploration", "runtime monitor: map models per trie + byte-identical observation tuples of bystander tries + pending-change integrity, over generated block histories",
     "40 000 (quick) / 800 000 (thorough) block histories with several concurrently open children, grandchildren, merges, discards and stale merges; after each step the observation tuple (root, content, pending changes with encodings, deletes) of every uninvolved trie must be byte-identical, child views must equal the model, stale merges must be rejected, and every pending change must re-hash to its key and equal the stored node.",
     "Observation uses the public API (GetChanges/Iterate/Encode) plus the harness' own parser; stale children's views are not judged after their parent moved on.")
+
+add("C04", "fault_enumeration", "runtime monitor with exhaustive crash-point replay: every prefix of each save's physical write stream on an interposed store, plus model read-back of all retained roots",
+    "2 400 (quick) / 48 000 (thorough) multi-round histories run the real trie + change collector + PNodeDB against a write-logging, crash-injecting stand-in for RocksDB. After each save all retained roots are re-read on a re-opened store; for every prefix of the save's write stream the round is re-executed with a crash at that point, earlier roots must stay complete and re-execution must reproduce root and content. Exhaustive in crash points per history, sampled in histories.",
+    "RocksDB is replaced by a pure-Go sorted KV stand-in with atomic batches and crash-after-N-writes (the cgo binding cannot link here); PNodeDB, the collector and the trie are the real code.")
+add("C05", "fault_enumeration", "runtime monitor: dead-set vs reachability oracle over raw stored bytes, prune write-log subset check, exhaustive crash-point replay of each prune",
+    "3 200 (quick) / 48 000 (thorough) histories; after every round all dead sets reported so far are intersected with the node set reachable from the new root (must be empty); every prune's physical deletes must be a subset of the dead sets recorded below the prune version, records below are gone and the others remain, retained roots stay readable; every prefix of each prune's write stream is replayed as a crash followed by restart and re-run.",
+    "Same storage stand-in as C04; reachability is computed by the harness' own parser of the stored encodings.")
